@@ -16,7 +16,12 @@ for i in ids:
     extra = m.get('cross', '') or m.get('not_caught', '')
     sig = re.sub(r'\s+', ' ', m.get('check_output', ''))
     sm = re.search(r'(C\d\d/[^ ]+)', sig)
-    rows.append(f"| {i} | {(m.get('summary') or '')[:170].replace('|','/')}... | {fmt(first)} | {fmt(fin)}{(' — ' + extra) if extra else ''} | `{sm.group(1) if sm else '-'}` |")
+    fnote = ''
+    if m.get('strengthened_before_first_run'):
+        fnote = ' (' + m['strengthened_before_first_run'] + ')'
+    if m.get('first_run', {}).get('note'):
+        fnote += ' (' + m['first_run']['note'] + ')'
+    rows.append(f"| {i} | {(m.get('summary') or '')[:170].replace('|','/')}... | {fmt(first)}{fnote} | {fmt(fin)}{(' — ' + extra) if extra else ''} | `{sm.group(1) if sm else '-'}` |")
     n += 1
 s = open('/verif/DESIGN.md').read()
 s = re.sub(r'(<!-- seeded:table -->\n).*?(\n<!-- /seeded:table -->)', lambda mm: mm.group(1) + '\n'.join(rows) + mm.group(2), s, flags=re.S)
